@@ -11,7 +11,9 @@ DEMO=$(ls $WT/demo_*.py | head -1)
 cd $WT
 echo "--- tests with change:"; PYTHONPATH=$WT/src /venv/bin/python -m pytest -q -p no:cacheprovider --continue-on-collection-errors 2>&1 | tail -1 | tee $D/tests_with_change.txt
 echo "--- demo with change:"; set +e; PYTHONPATH=$WT/src /venv/bin/python $DEMO > $D/demo_with_change.txt 2>&1; echo "exit=$?" | tee -a $D/demo_with_change.txt; tail -5 $D/demo_with_change.txt
-git -C $WT stash -q
+# (no git stash here: the stash is shared by all worktrees of a repository, and concurrent users swap each other's changes)
+git -C $WT diff > /tmp/intake_$ID.full.patch
+git -C $WT apply -R /tmp/intake_$ID.full.patch
 echo "--- demo without change:"; PYTHONPATH=$WT/src /venv/bin/python $DEMO > $D/demo_without_change.txt 2>&1; echo "exit=$?" | tee -a $D/demo_without_change.txt; tail -3 $D/demo_without_change.txt
-git -C $WT stash pop -q
+git -C $WT apply /tmp/intake_$ID.full.patch; rm -f /tmp/intake_$ID.full.patch
 set -e
